@@ -45,6 +45,95 @@ def Unchanged : Field → HMeta → HMeta → Prop
   | .idGenerator, o, o' => o'.idNext = o.idNext
   | .assocKeys, o, o' => o'.assocs.map (fun a => (a.stmt, a.keysRef)) = o.assocs.map (fun a => (a.stmt, a.keysRef))
 
+/-! ### the batch relate of `new` touches links only -/
+
+/-- the classes, the associations' statements and key pointers, and the id generator are as before -/
+def LinksOnly (o o' : HMeta) : Prop :=
+  o'.classes = o.classes ∧
+  o'.assocs.map (fun a => (a.stmt, a.keysRef)) = o.assocs.map (fun a => (a.stmt, a.keysRef)) ∧
+  o'.idNext = o.idNext
+
+theorem LinksOnly.refl (o : HMeta) : LinksOnly o o := ⟨rfl, rfl, rfl⟩
+
+theorem LinksOnly.trans {o1 o2 o3 : HMeta} (h1 : LinksOnly o1 o2) (h2 : LinksOnly o2 o3) : LinksOnly o1 o3 :=
+  ⟨h2.1.trans h1.1, h2.2.1.trans h1.2.1, h2.2.2.trans h1.2.2⟩
+
+theorem relateH_linksOnly (o : HMeta) (k1 : String) (i1 : Nat) (k2 : String) (i2 : Nat) (rel phrase : String) :
+    LinksOnly o (relateH o k1 i1 k2 i2 rel phrase).1 := by
+  unfold relateH
+  cases findLink (o.assocs.map (·.stmt)) k1 k2 rel phrase with
+  | none => exact LinksOnly.refl o
+  | some ns =>
+    obtain ⟨n, swapped⟩ := ns
+    simp only
+    cases o.assocs[n]? with
+    | none => exact LinksOnly.refl o
+    | some a => exact ⟨rfl, map_updateAt _ _ _ _ (fun _ => rfl), rfl⟩
+
+theorem relateHitsH_linksOnly (okind kind : String) (i : Nat) (rel phrase : String) (hs : List Nat) :
+    ∀ o, LinksOnly o (relateHitsH okind kind i rel phrase hs o).1 := by
+  induction hs with
+  | nil => intro o; exact LinksOnly.refl o
+  | cons j js ih =>
+    intro o
+    simp only [relateHitsH]
+    have h1 := relateH_linksOnly o okind j kind i rel phrase
+    cases hr : relateH o okind j kind i rel phrase with
+    | mk o' res =>
+      rw [hr] at h1
+      cases res <;> first
+        | exact h1.trans (ih o')
+        | exact h1
+
+theorem relateLinkH_linksOnly (refs : List (String × Val)) (km : List (String × String)) (okind kind : String)
+    (i : Nat) (rel phrase : String) (o : HMeta) :
+    LinksOnly o (relateLinkH refs km okind kind i rel phrase o).1 := by
+  unfold relateLinkH
+  split
+  · exact LinksOnly.refl o
+  · split
+    · exact LinksOnly.refl o
+    · split
+      · exact LinksOnly.refl o
+      · split
+        · exact LinksOnly.refl o
+        · exact relateHitsH_linksOnly _ _ _ _ _ _ o
+
+theorem relateLinksH_linksOnly (refs : List (String × Val)) (kind : String) (i : Nat)
+    (ls : List (List (String × String) × String × String × String)) :
+    ∀ o, LinksOnly o (relateLinksH refs kind i ls o).1 := by
+  induction ls with
+  | nil => intro o; exact LinksOnly.refl o
+  | cons e rest ih =>
+    intro o
+    obtain ⟨km, okind, rel, phrase⟩ := e
+    simp only [relateLinksH]
+    have h1 := relateLinkH_linksOnly refs km okind kind i rel phrase o
+    cases hr : relateLinkH refs km okind kind i rel phrase o with
+    | mk o' res =>
+      rw [hr] at h1
+      cases res <;> first
+        | exact h1.trans (ih o')
+        | exact h1
+
+/-- `new` with arguments: the state after the row has been stored and before the batch relate -/
+def newStored (attrsOf : Ref (List (String × Ty)) → List (String × Ty)) (o : HMeta) (kind : String) (args : List Val)
+    (c : HCls) : HMeta :=
+  let refNames := referential (o.assocs.map (·.stmt)) kind
+  let d := defaultRow refNames (attrsOf c.attrs) o.idNext
+  let sp := splitArgs refNames ((attrsOf c.attrs).zip args) d.1 []
+  { o with
+    classes := modifyCls o.classes kind (fun c' => { c' with rows := c'.rows ++ [(c'.created, sp.1)], created := c'.created + 1 }),
+    idNext := d.2 }
+
+theorem newArgs_shape (attrsOf : Ref (List (String × Ty)) → List (String × Ty)) (o : HMeta) (kind : String)
+    (args : List Val) (c : HCls) (hc : findHCls o.classes kind = some c) :
+    LinksOnly (newStored attrsOf o kind args c) (applyOwn attrsOf o (.newArgs kind args)).1 := by
+  simp only [applyOwn, hc]
+  split
+  · exact LinksOnly.refl _
+  · exact relateLinksH_linksOnly _ _ _ _ _
+
 /-- the frame of the mutators that do not edit an attribute list -/
 theorem applyOwn_frame (attrsOf : Ref (List (String × Ty)) → List (String × Ty)) (o : HMeta) (μ : Mut)
     (hμ : μ.isAttrEdit = false) (f : Field) (hf : f ∉ μ.writes) : Unchanged f o (applyOwn attrsOf o μ).1 := by
@@ -73,6 +162,15 @@ theorem applyOwn_frame (attrsOf : Ref (List (String × Ty)) → List (String × 
         | rfl
         | exact map_modifyCls _ _ _ _ (fun _ => rfl)
         | (exfalso; apply hf; simp [Mut.writes]; done)
+  | newArgs kind args =>
+    cases hc : findHCls o.classes kind with
+    | none => simp only [applyOwn, hc]; cases f <;> simp [Unchanged]
+    | some c =>
+      have hlo := newArgs_shape attrsOf o kind args c hc
+      cases f <;> simp only [Unchanged] <;> first
+        | (exfalso; apply hf; simp [Mut.writes]; done)
+        | (rw [hlo.1]; exact map_modifyCls _ _ _ _ (fun _ => rfl))
+        | (rw [hlo.2.1]; rfl)
   | delete kind id =>
     simp only [applyOwn]
     cases findHCls o.classes kind with
@@ -175,6 +273,13 @@ theorem applyMut_kinds (stmts : List Stmt) (o : HMeta) (μ : Mut) :
       cases findHCls o.classes kind with
       | none => rfl
       | some c => exact map_modifyCls _ _ _ _ (fun _ => rfl)
+    | newArgs kind args =>
+      cases hc : findHCls o.classes kind with
+      | none => simp only [applyOwn, hc]
+      | some c =>
+        have hlo := newArgs_shape (getAttrs stmts) o kind args c hc
+        rw [hlo.1]
+        exact map_modifyCls _ _ _ _ (fun _ => rfl)
     | delete kind id =>
       simp only [applyOwn]
       cases findHCls o.classes kind with
@@ -226,6 +331,11 @@ theorem applyOwn_congr (f g : Ref (List (String × Ty)) → List (String × Ty))
     (h : ∀ c ∈ o.classes, f c.attrs = g c.attrs) : applyOwn f o μ = applyOwn g o μ := by
   cases μ with
   | new kind =>
+    simp only [applyOwn]
+    cases hc : findHCls o.classes kind with
+    | none => rfl
+    | some c => simp only [h c (findHCls_mem hc)]
+  | newArgs kind args =>
     simp only [applyOwn]
     cases hc : findHCls o.classes kind with
     | none => rfl
